@@ -86,15 +86,16 @@ Definition il_none : iline := mkIL false false false false 0 0 None.     (* zero
 Definition il_blank : iline := mkIL true true false false 0 0 None.      (* markEmptyLine *)
 
 Record term := mkTerm {
+  t_prompt : str;          (* promptString (its display length is promptLen) *)
   t_query : str; t_matches : list (nat * str); t_total : nat; t_cy : nat; t_off : nat; t_sel : list nat;
   t_screen : list row;     (* logical line -> cells *)
   t_prev : list iline      (* prevLines *)
 }.
-Definition t_view (t : term) : view := mkView (t_query t) (t_matches t) (t_total t) (t_cy t) (t_off t) (t_sel t).
+Definition t_view (t : term) : view := mkView (t_prompt t) (t_query t) (t_matches t) (t_total t) (t_cy t) (t_off t) (t_sel t).
 Definition set_draw (t : term) (s : list row) (p : list iline) : term :=
-  mkTerm (t_query t) (t_matches t) (t_total t) (t_cy t) (t_off t) (t_sel t) s p.
+  mkTerm (t_prompt t) (t_query t) (t_matches t) (t_total t) (t_cy t) (t_off t) (t_sel t) s p.
 Definition set_scroll (t : term) (cy off : nat) : term :=
-  mkTerm (t_query t) (t_matches t) (t_total t) cy off (t_sel t) (t_screen t) (t_prev t).
+  mkTerm (t_prompt t) (t_query t) (t_matches t) (t_total t) cy off (t_sel t) (t_screen t) (t_prev t).
 
 (* printHighlighted, !hscroll branch: trimRight(line, maxWidth - ellipsisWidth) ++ ellipsis *)
 Definition item_text (maxw : nat) (s : str) : str :=
@@ -155,10 +156,10 @@ Definition print_list (c : cfg) (t : term) : term :=
   let '(cy, off) := constrain (length (t_matches t)) (max_items c) scroll_off_default (t_cy t) (t_off t) in
   print_list_at c (set_scroll t cy off).
 
-(* printPrompt: the prompt "> " goes through printHighlighted (clears the line), then the query *)
+(* printPrompt: the prompt string goes through printHighlighted (clears the line, cut to W-2), then the query *)
 Definition print_prompt (c : cfg) (t : term) : term :=
   let w := c_w c in
-  set_draw t (upd_at 0 (fun r => put 0 (item_text (w - 2) [GT; SP] ++ t_query t) (clear_from w 0 r)) (t_screen t)) (t_prev t).
+  set_draw t (upd_at 0 (fun r => put 0 (item_text (w - 2) (t_prompt t) ++ t_query t) (clear_from w 0 r)) (t_screen t)) (t_prev t).
 
 (* printInfoImpl *)
 Definition print_info (c : cfg) (t : term) : term :=
@@ -170,8 +171,19 @@ Definition print_info (c : cfg) (t : term) : term :=
     | IHidden => if c_sep c then upd_at 1 (put 0 (repeat DASH (w - 1) ++ [SP])) (t_screen t) else t_screen t
     | IDefault => upd_at 1 (fun r => put 0 ([SP; SP] ++ info_tail c (w - 3) out) (clr 0 r)) (t_screen t)
     | IInline =>
-        let pos := 2 + length (t_query t) + 1 in
+        let pos := length (t_prompt t) + length (t_query t) + 1 in
         upd_at 0 (fun r => put pos ([SP; LT; SP] ++ info_tail c (w - (pos + 3) - 1) out) (clr pos r)) (t_screen t)
+    | IInlineRight =>
+        (* no info prefix: blanks up to W-len-3, the spinner column, a margin column, the text; then the
+           separator on the next line *)
+        let pos := length (t_prompt t) + length (t_query t) + 1 in
+        let newpos := Nat.max pos (w - length out - 3) in
+        let pos1 := if newpos <? w then S newpos else newpos in
+        let pos2 := if pos1 <? w - 1 then S pos1 else pos1 in
+        let s := repeat SP (newpos - pos) ++ (if newpos <? w then [SP] else []) ++ (if pos1 <? w - 1 then [SP] else [])
+                 ++ trim_msg (w - pos2 - 1) out in
+        let scr1 := upd_at 0 (put pos s) (t_screen t) in
+        if c_sep c then upd_at 1 (put 0 (repeat DASH (w - 1) ++ [SP])) scr1 else scr1
     end in
   set_draw t scr (t_prev t).
 
@@ -201,7 +213,8 @@ Definition full_redraw (c : cfg) (t : term) : term :=
 (* render requests of one round *)
 Record reqs := mkReqs { rq_prompt : bool; rq_info : bool; rq_header : bool; rq_list : bool; rq_full : bool }.
 
-Definition is_inline (c : cfg) : bool := match c_info c with IInline => true | _ => false end.
+(* the render loop: reqPrompt repaints (clears) the prompt line, so the info sharing that line is printed again *)
+Definition is_inline (c : cfg) : bool := match c_info c with IInline | IInlineRight => true | _ => false end.
 
 Definition handle (c : cfg) (rq : reqs) (t : term) : term :=
   let t := if rq_prompt rq then print_prompt c t else t in
@@ -211,13 +224,13 @@ Definition handle (c : cfg) (rq : reqs) (t : term) : term :=
   if rq_info rq || (rq_prompt rq && is_inline c) then print_info c t else t.
 
 (* one step of a history: the actions changed the fields, then asked for redraws *)
-Record upd := mkUpd { u_query : str; u_matches : list (nat * str); u_total : nat; u_cy : nat; u_sel : list nat; u_reqs : reqs }.
+Record upd := mkUpd { u_prompt : str; u_query : str; u_matches : list (nat * str); u_total : nat; u_cy : nat; u_sel : list nat; u_reqs : reqs }.
 Definition step (c : cfg) (t : term) (u : upd) : term :=
-  handle c (u_reqs u) (mkTerm (u_query u) (u_matches u) (u_total u) (u_cy u) (t_off t) (u_sel u) (t_screen t) (t_prev t)).
+  handle c (u_reqs u) (mkTerm (u_prompt u) (u_query u) (u_matches u) (u_total u) (u_cy u) (t_off t) (u_sel u) (t_screen t) (t_prev t)).
 Definition run (c : cfg) (t : term) (us : list upd) : term := fold_left (step c) us t.
 
 Definition term_of_view (v : view) : term :=
-  mkTerm (v_query v) (v_matches v) (v_total v) (v_cy v) (v_off v) (v_sel v) [] [].
+  mkTerm (v_prompt v) (v_query v) (v_matches v) (v_total v) (v_cy v) (v_off v) (v_sel v) [] [].
 Definition start (c : cfg) (v : view) : term := full_redraw c (term_of_view v).
 
 (* Terminal.move: logical line -> row of the window *)
